@@ -18,7 +18,9 @@
 EXTENDS Naturals, Sequences, FiniteSets, TLC, Json, SequencesExt
 
 CONSTANTS MaxLen
-Classes == {"plain", "dq", "sq", "bs", "lf", "cr", "hash", "lbrace", "rbrace", "nonascii"}
+\* usep: a character that line-based text processing (str.splitlines) treats as a line boundary although the Python tokenizer
+\* does not (U+2028, U+2029, U+0085, VT, FF, FS, GS, RS): inert for the lexer below, hostile to post-processing of emitted text
+Classes == {"plain", "dq", "sq", "bs", "lf", "cr", "hash", "lbrace", "rbrace", "nonascii", "usep"}
 Resting == {"dq", "sq", "tq", "cmt"}
 
 Feed(ctx, ch) ==
